@@ -48,7 +48,12 @@ class CustomWithArgs(Exception):
         self.b = b
 
 
-EXC = {"ValueError": ValueError, "KeyError": KeyError, "Custom": CustomFault, "CustomStop": CustomStop, "CustomWithArgs": CustomWithArgs}
+class CustomTypeError(TypeError):
+    """a fault of the TypeError family (what a wrongly typed forwarded option produces inside an element)"""
+
+
+EXC = {"ValueError": ValueError, "KeyError": KeyError, "Custom": CustomFault, "CustomStop": CustomStop, "CustomWithArgs": CustomWithArgs,
+       "TypeError": TypeError, "CustomTypeError": CustomTypeError}
 
 
 def chunk_of(i, binary, field_fault=False):
@@ -182,6 +187,11 @@ def run_impl(case):
     exc_obj = EXC[case["exc"]]("injected fault") if k is not None else None
     d = tempfile.mkdtemp(prefix="cfi-c17-")
     try:
+        # arguments the caller forwards through File.read / File.write down to every element
+        # (block and section families; the register family's positional argument is its peek window)
+        fwd_a, fwd_k = (), {}
+        if case.get("forward") and fam != "register":
+            fwd_a, fwd_k = ("forwarded",), {"option": 4}
         ff = bool(case.get("field_fault"))
         if ff:
             E, F, Data, Dflt = make_field_fault_family(k, exc_obj, direction)
@@ -208,7 +218,7 @@ def run_impl(case):
                 buf = io.BytesIO() if binary else io.StringIO()
             with Recorder() as rec:
                 try:
-                    f.write(dest_path if where in ("path", "existingpath") else buf)
+                    f.write(dest_path if where in ("path", "existingpath") else buf, *fwd_a, **fwd_k)
                 except BaseException as e:  # noqa
                     raised = e
             if where in ("path", "existingpath"):
@@ -241,7 +251,7 @@ def run_impl(case):
             extra = (7,) if fam == "register" and binary else ()
             with Recorder() as rec:
                 try:
-                    F.read(src, *extra)
+                    F.read(src, *extra, *fwd_a, **fwd_k)
                 except BaseException as e:  # noqa
                     raised = e
         out["open_handles"] = sum(1 for h in rec.handles if not h.closed)
@@ -327,6 +337,8 @@ def all_cases():
                                 if k is None and exc != "ValueError":
                                     continue
                                 yield {"family": fam, "binary": binary, "direction": direction, "where": where, "n": n, "k": k, "exc": exc}
+                                if fam != "register" and (k is None or exc in ("TypeError", "CustomTypeError", "ValueError")) and where in ("path", "buffer"):
+                                    yield {"family": fam, "binary": binary, "direction": direction, "where": where, "n": n, "k": k, "exc": exc, "forward": True}
                                 if fam == "register" and not binary and k is not None and exc in ("KeyError", "Custom") and where in ("path", "buffer"):
                                     yield {"family": fam, "binary": binary, "direction": direction, "where": where, "n": n, "k": k, "exc": exc, "field_fault": True}
                                 if direction == "read" and k is not None and exc in ("ValueError", "Custom"):
